@@ -52,6 +52,9 @@ PURE = [
     ("member(a, [a,b,a,c]).", ""),
 ]
 PRE = ["use_module(library(lists)).", "use_module(library(between)).", "use_module(library(dif)).", "use_module(library(iso_ext))."]
+# no query of this check runs long; under heavy machine load the default 10 s harness watchdog fired inside the
+# bootstrap of a fresh Machine (panics in load_top_level / corrupted library state) — give it a minute instead
+ENV = {"SV_TIMEOUT_MS": "60000"}
 FULL = 60   # "ask until None" (no stream in the check has more items)
 
 
@@ -111,7 +114,7 @@ class Voc:
         for qi, (q, _vs) in enumerate(PURE):
             cases.append(["R\tb_r%d" % qi] + ["Q\tb_p%d_%d\t1\t%s" % (qi, j, p) for j, p in enumerate(PRE)]
                          + ["Q\tb_q%d\t%d\t%s" % (qi, FULL, q)])
-        res = core.run_impl_parallel(cases)
+        res = core.run_impl_parallel(cases, env=ENV)
         self.retried, self.failing = run_robust(cases, res)
         self.stream = {qi: items_of(res.get("b_q%d" % qi, "missing")) for qi in range(len(PURE))}
         self.tok = {}
@@ -169,7 +172,7 @@ def run_robust(cases, res):
         n = 0
         while prob and n < 2:
             RETRY_REASONS.append(prob)
-            res.update(core.run_impl(lines))
+            res.update(core.run_impl(lines, env=ENV))
             retried += 1
             n += 1
             prob = setup_problem(lines, res)
@@ -386,7 +389,7 @@ def run(ctx):
         cid = "h%d" % i
         cases.append({"id": cid, "impl": setup_lines(cid, db0) + ["Q\t%s_%d\t%d\t%s" % (cid, j, k, render(q)) for j, (q, k) in enumerate(hist)]})
     t2 = time.time()
-    impl, _ = diff.run_cases(cases)
+    impl, _ = diff.run_cases(cases, impl_env=ENV)
     t3 = time.time()
     retried, failing = run_robust(cases, impl)
     retried += voc.retried
